@@ -17,6 +17,18 @@
 //!                                                   (bit index = 8*byte + (7 - bit number), i.e. wire order)
 //! P (bytes) = parts joined by '+': `-` empty | hex | g<len>:<seed> (generated, see `gen_bytes`).
 //!
+//! Property oracle (independent of the model): etherparse 0.10 and plain u64 arithmetic.
+//!   builders : same bytes as etherparse for the same field values (compute_checksum build: the
+//!              field may be 0xffff where etherparse has 0x0000), emitted packet verifies under
+//!              RFC 1071 incl. pseudo header, own decoder gives the fields back, etherparse reads
+//!              the same fields
+//!   decoders : accepted => re-encoding reproduces the consumed bytes (TCP: Oracle::Known
+//!              "tcp-reserved-bits" exactly when only the reserved bits of bytes 12/13 differ;
+//!              not judged in the compute_checksum build, where C18 does not claim the clause),
+//!              etherparse reads the same fields, packet verifies; rejected => the packet is not a
+//!              conforming encoding (reference checksum cross-checked with etherparse)
+//!   flip     : with checksums on, a corrupted accepted packet is rejected iff the covered word sum
+//!              changed modulo 65535; single-bit flips always
 //! Result lines are documented next to each runner; the OCaml driver
 //! (ocaml/codecip_drv.ml) prints the same strings from the extracted model.
 #![allow(dead_code)]
